@@ -270,6 +270,20 @@ class RenderColumnHeaders(Contract):
                     ok = to_z3(rn) == to_z3(ncells)
                 # EncodeColumnHeader's precondition: one relative width per header cell (else the header's right edge is not the table's)
                 I.oblige(st, f"C08.header_has_one_relative_width_per_cell@L{site}", Implies(Not(none_cond), ok), "post", site)
+            # C03: a header row is rendered only for a header the row budget reserved a row for.  The reservation
+            # (calculate_additional_rows_per_page, unit AdditionalRows) counts exactly the headers whose OWN text is set.
+            orig = I.lookup(st, "header")
+            if isinstance(orig, Opt):
+                orig = orig.payload
+            own_text_none = None
+            for key, (r0, tn0, rn0, tnone0, rnone0) in vv["memo"].items():
+                if isinstance(orig, Ref) and r0.oid == orig.oid:
+                    own_text_none = tnone0
+            rendered = z3.BoolVal(False) if ncells is None else (Not(none_cond) if (isinstance(t, Ref) and isinstance(st.obj(t), DfObj))
+                                                                  else And(Not(none_cond), to_z3(ncells) > 0))
+            auto = isinstance(t, Ref) and isinstance(st.obj(t), DfObj)        # text auto-populated from the page's column names
+            I.oblige(st, f"C03.{'auto_populated_default_header_row' if auto else 'rendered_header_row'}_was_reserved_in_the_row_budget@L{site}",
+                     Implies(rendered, Not(own_text_none)) if own_text_none is not None else z3.BoolVal(False), "post", site)
             # EncodeColumnHeader's postcondition: None exactly when there is no text (None or no labels)
             if ncells is None:
                 return None
